@@ -271,6 +271,14 @@ def _q_isin_strings(env, values=("w1", "w4", "zz", "w1", "w0"), nparts=3):
     return A[A.s.isin(list(values))][["a", "s"]]
 
 
+def _q_chunked(env, chunksize=5, k=0):
+    """from_pandas by chunksize: collections over EQUAL data with different chunk sizes share nothing but the data's
+    token — per-frame caches (division/location info) must not be shared between them, here or after unpickling"""
+    import dask_expr as dx
+
+    return dx.from_pandas(table_A(), chunksize=chunksize)[["a", "b"]] + k
+
+
 def _q_set_index_b(env, col="b", nparts=5):
     return env.A(nparts).set_index(col, shuffle_method="tasks")
 
@@ -525,6 +533,9 @@ POOL = {
     "set_index": (_q_set_index, {}, [("col", "a"), ("npartitions", 2), ("nparts", 3), ("drop", False)], {"tags": ["sort", "set_index"], "sort_rows": True}),
     "set_index_userdiv": (_q_set_index_userdiv, {}, [("col", "a"), ("nparts", 3)], {"tags": ["sort", "set_index"], "sort_rows": True}),
     "isin_strings": (_q_isin_strings, {}, [("values", ("w2", "w3", "w5", "q")), ("nparts", 2)], {}),
+    "chunked5": (_q_chunked, {"chunksize": 5}, [("k", 1)], {"tags": ["backend"]}),
+    "chunked8": (_q_chunked, {"chunksize": 8}, [("k", 1)], {"tags": ["backend"]}),
+    "chunked13": (_q_chunked, {"chunksize": 13}, [("k", 1)], {"tags": ["backend"]}),
     "set_index_b": (_q_set_index_b, {}, [("col", "s"), ("nparts", 4)], {"tags": ["sort", "set_index"], "sort_rows": True}),
     "set_index_then": (_q_set_index_then, {}, [("col", "b"), ("k", 2), ("nparts", 3)], {"tags": ["sort", "set_index"], "sort_rows": True}),
     "set_index_nosort": (_q_set_index_nosort, {}, [("col", "a"), ("nparts", 3)], {"sort_rows": True}),
